@@ -290,14 +290,47 @@ func (e *Engine) errIs(st *State, err, target VIface, depth int) *Term {
 				for _, w := range ve.Wraps {
 					rest = Or(rest, e.errIs(st, w.(VIface), target, depth+1))
 				}
-			} else if e.hasMethod(err.Dyn, "Unwrap") || e.hasMethod(err.Dyn, "Is") {
-				unsupported("errors.Is through user-defined Unwrap/Is on %s", err.Dyn)
+			} else {
+				rest = e.errIsUser(st, err, target, depth)
 			}
 		}
-	} else if err.Dyn != nil && (e.hasMethod(err.Dyn, "Unwrap") || e.hasMethod(err.Dyn, "Is")) {
-		unsupported("errors.Is through user-defined Unwrap/Is on %s", err.Dyn)
+	} else if err.Dyn != nil {
+		rest = e.errIsUser(st, err, target, depth)
 	}
 	return Or(here, And(Not(err.Nil), rest))
+}
+
+// errIsUser follows a user-defined Unwrap() error method (executed symbolically).
+func (e *Engine) errIsUser(st *State, err, target VIface, depth int) *Term {
+	if e.hasMethod(err.Dyn, "Is") {
+		unsupported("errors.Is through user-defined Is on %s", err.Dyn)
+	}
+	if !e.hasMethod(err.Dyn, "Unwrap") {
+		return False
+	}
+	ms := e.prog.MethodSets.MethodSet(err.Dyn)
+	var sel *types.Selection
+	for i := 0; i < ms.Len(); i++ {
+		if ms.At(i).Obj().Name() == "Unwrap" {
+			sel = ms.At(i)
+		}
+	}
+	fn := e.prog.MethodValue(sel)
+	if fn == nil || fn.Signature.Results().Len() != 1 || !types.Identical(fn.Signature.Results().At(0).Type(), errorType) {
+		unsupported("errors.Is through Unwrap of unusual shape on %s", err.Dyn)
+	}
+	outs := e.CallFn(st, fn, []Value{err.Val}, nil, depth+20)
+	if len(outs) != 1 || outs[0].Panic != nil || outs[0].St != st {
+		unsupported("errors.Is: user Unwrap on %s forks or panics", err.Dyn)
+	}
+	inner, ok := outs[0].Ret.(VIface)
+	if !ok {
+		unsupported("errors.Is: user Unwrap returned %T", outs[0].Ret)
+	}
+	if inner.Nil.IsTrue() {
+		return False
+	}
+	return And(Not(inner.Nil), e.errIs(st, inner, target, depth+1))
 }
 
 func (e *Engine) hasMethod(t types.Type, name string) bool {
@@ -344,12 +377,18 @@ func intrErrorsJoin(e *Engine, c *CallCtx) []Outcome {
 	var wraps []Value
 	for _, o := range ops {
 		iv := o.(VIface)
-		if iv.Nil.IsTrue() {
+		nl := c.St.Simp(iv.Nil)
+		if !nl.IsConst() {
+			t, f := e.branch(c.St, nl)
+			if t && f {
+				unsupported("errors.Join with maybe-nil operand")
+			}
+			nl = BoolC(t)
+		}
+		if nl.IsTrue() {
 			continue
 		}
-		if !iv.Nil.IsFalse() {
-			unsupported("errors.Join with maybe-nil operand")
-		}
+		iv.Nil = False
 		wraps = append(wraps, iv)
 	}
 	if len(wraps) == 0 {
